@@ -185,6 +185,36 @@ int main(int argc, char **argv) {
         if (!e->EncodeToBuffer(&b3).ok() || differs("expert-encoder-after-reset", std::string(b3.data(), b3.size()))) return;
       }
     }
+    // (3b) option history: the same encoder object first encodes with other speed options (biased to cross the
+    // speed-10 method switch), then the speeds are set to the case's values: the final option state equals the
+    // reference's, so the output must too.
+    if (c.o.enc_speed >= 0) {
+      vf::EncOpts hist = c.o;
+      const int other[] = {10, 10, 2, 5, 9, 3};  // never below 2: see AvoidHugeEntropyTables
+      hist.enc_speed = other[r.below(6)];
+      hist.dec_speed = r.below(2) ? hist.enc_speed : other[r.below(6)];
+      std::string got;
+      bool ok = true;
+      if (c.o.expert) {
+        std::unique_ptr<ExpertEncoder> e(c.g.is_mesh ? new ExpertEncoder(*c.mesh) : new ExpertEncoder(*c.pc));
+        vf::ConfigureExpert(e.get(), c.g, hist);
+        EncoderBuffer b1, b2;
+        e->EncodeToBuffer(&b1);  // may succeed or be refused; only the second call is compared
+        e->SetSpeedOptions(c.o.enc_speed, c.o.dec_speed);
+        ok = e->EncodeToBuffer(&b2).ok();
+        got.assign(b2.data(), b2.size());
+      } else {
+        Encoder e;
+        vf::ConfigureBasic(&e, c.g, hist);
+        EncoderBuffer b1, b2;
+        if (c.g.is_mesh) e.EncodeMeshToBuffer(*c.mesh, &b1); else e.EncodePointCloudToBuffer(*c.pc, &b1);
+        e.SetSpeedOptions(c.o.enc_speed, c.o.dec_speed);
+        ok = (c.g.is_mesh ? e.EncodeMeshToBuffer(*c.mesh, &b2) : e.EncodePointCloudToBuffer(*c.pc, &b2)).ok();
+        got.assign(b2.data(), b2.size());
+      }
+      if (!ok) { rep.violation("encode-status-differs/after-speed-history/" + cfg, desc + " history speed " + std::to_string(hist.enc_speed) + "/" + std::to_string(hist.dec_speed), arts); return; }
+      if (differs(std::string("after-speed-history/") + (c.o.expert ? "expert" : "basic"), got)) return;
+    }
     // (4) another process, ASLR on and off
     if (k % 16 == 0) {
       for (int aslr = 0; aslr < 2; ++aslr) {
